@@ -174,7 +174,14 @@ def object_level(j, version, key):
         m = "marking-definition--" + V4
         out += [("gm-no-selectors", dict(j, granular_markings=[{"marking_ref": m}])), ("gm-empty-selectors", dict(j, granular_markings=[{"marking_ref": m, "selectors": []}])),
                 ("gm-neither-ref-nor-lang", dict(j, granular_markings=[{"selectors": ["type"]}])), ("gm-ref-to-identity", dict(j, granular_markings=[{"marking_ref": "identity--" + V4, "selectors": ["type"]}]))]
+        # several selectors / several markings: every selector must address something, wherever it stands
+        out += [("gm-later-selector-addresses-nothing", dict(j, granular_markings=[{"marking_ref": m, "selectors": ["type", "zzz-absent"]}])),
+                ("gm-later-selector-addresses-nothing", dict(j, granular_markings=[{"marking_ref": m, "selectors": ["type", "id", "type.[0]"]}])),
+                ("gm-first-selector-addresses-nothing", dict(j, granular_markings=[{"marking_ref": m, "selectors": ["zzz-absent", "type"]}])),
+                ("gm-later-marking-selector-addresses-nothing", dict(j, granular_markings=[{"marking_ref": m, "selectors": ["type"]}, {"marking_ref": m, "selectors": ["id", "zzz-absent"]}])),
+                ("gm-later-selector-bad-syntax", dict(j, granular_markings=[{"marking_ref": m, "selectors": ["type", "Type"]}]))]
         if version == "2.1":
+            out.append(("gm-later-selector-addresses-nothing/lang", dict(j, granular_markings=[{"lang": "en", "selectors": ["type", "zzz-absent"]}])))
             out.append(("gm-both-ref-and-lang", dict(j, granular_markings=[{"marking_ref": m, "lang": "en", "selectors": ["type"]}])))
             out.append(("gm-ref-and-empty-lang", dict(j, granular_markings=[{"marking_ref": m, "lang": "", "selectors": ["type"]}])))
             out.append(("gm-empty-ref-and-lang", dict(j, granular_markings=[{"marking_ref": "", "lang": "en", "selectors": ["type"]}])))
